@@ -357,6 +357,11 @@ class DiameterAssociation(object):
         diameter_conn_logger.debug("Cleared go ahead for "\
                                    "postprocess_recv_messages_ready")
 
+        #: A stop request must stay visible to every caller blocked in 
+        #: get_message(), not only to the first one which consumes it.
+        if self._stop_threads:
+            self.postprocess_recv_messages_ready.set()
+
         self.lock.release()
         diameter_conn_logger.debug("Released DiameterAssociation lock")
         return msg
@@ -367,6 +372,8 @@ class DiameterAssociation(object):
             if self.postprocess_recv_messages.empty():
                 self.postprocess_recv_messages_ready.wait()
                 self.postprocess_recv_messages_ready.clear()
+                if self._stop_threads:
+                    self.postprocess_recv_messages_ready.set()
                 diameter_conn_logger.debug("Got go ahead for "\
                                            "postprocess_recv_messages_ready")
 
